@@ -14,12 +14,15 @@ def run(ctx, replay=None):
     if ctx.quick:
         kernlib.mc_replay(ctx, "KernelMC_c02.cfg", {"Delays = {0, 1}": "Delays = {1}"}, label="KernelMC/c02 2x3 delay 1")
         kernlib.gen_validate(ctx, 1500, KINDS)
+        # waiters of an event that is also the target of run(until=event): registered before and after run() was called
+        kernlib.gen_validate(ctx, 1000, KINDS, plan_kinds={"run": 1, "runev": 3}, max_plan=4, label="generated-run-until-event")
     else:
         kernlib.mc_replay(ctx, "KernelMC_c02.cfg", {'"spawn", "yield"': '"spawn", "spawnnp", "yield"'}, label="KernelMC/c02 2x3 +unprobed spawns")
         kernlib.mc_replay(ctx, "KernelMC_c02.cfg", {"MaxProc = 2": "MaxProc = 3", "MaxOps = 3": "MaxOps = 2", "MaxEv = 8": "MaxEv = 9"},
                           label="KernelMC/c02 3x2")
         kernlib.gen_validate(ctx, 20000, KINDS)
         kernlib.gen_validate(ctx, 5000, KINDS, max_procs=6, max_ops=8, max_events=40, label="generated-large")
+        kernlib.gen_validate(ctx, 15000, KINDS, plan_kinds={"run": 1, "runev": 3}, max_plan=4, label="generated-run-until-event")
     return ctx.finish(RULE)
 
 
